@@ -646,12 +646,15 @@ class StaticResource(PrefixResource):
                 file_path = normalized_path.resolve()
             else:
                 file_path = unresolved_path.resolve()
-                file_path.relative_to(self._directory)
-                if file_path.resolve() != file_path:
-                    # resolve() gave up at a circular symlink and left the
-                    # rest of the path unresolved: a link further down may
-                    # still point outside the root.
-                    raise ValueError("path is not fully resolved")
+                rel_path = file_path.relative_to(self._directory)
+                # resolve() gives up at a circular symlink and leaves the
+                # rest of the path unresolved: a link further down may still
+                # point outside the root, so no component may be a link.
+                probe = self._directory
+                for part in rel_path.parts:
+                    probe = probe / part
+                    if probe.is_symlink():
+                        raise ValueError("path is not fully resolved")
         except (ValueError, *CIRCULAR_SYMLINK_ERROR) as error:
             # ValueError is raised for the relative check. Circular symlinks
             # raise here on resolving for python < 3.13.
